@@ -22,7 +22,8 @@ RULE = ("s2d: sample2D on generated fields (incl. exactly bilinear ones), masks 
         "binv: bilin_inv trajectories (result for maxiter = 0,1,2,...) per point on affine-dyadic (exact), polar-stereographic, "
         "rotated lat/lon (0.8-20 km) and strongly warped grids, one Newton pass compared at a time plus whole runs; "
         "grid: real ROMS.Grid from a synthetic file with random legal subgrids (i0 != j0), xy2ll / ll2xy / lonlat; "
-        "gridbig: larger generated conformal grids, oracle only; e2e: ladim.main.main with lon/lat release and lon/lat output. "
+        "gridbig: larger generated conformal grids, oracle only; e2e: ladim.main.main with lon/lat release (some rows released later) and lon/lat output, "
+        "numrec in {0,1,2} (up to 6 files), sparse and dense layout, with and without lon/lat state variables, every record of every file checked. "
         "Non-trivial = distinct (kind, grid type, outcome class) x position class that reaches interpolation or the Newton update.")
 TRUSTED = ["Coq 8.16.1 kernel + vm_compute", "hand-written model coq/Model/Geo.v tied by this correspondence",
            "numpy elementwise float64 arithmetic = the scalar formula per particle (glue)", "netCDF4 round trip of float64 coordinate arrays"]
@@ -156,8 +157,14 @@ def gen_cases(ctx):
         out.append({"k": "grid", "grid": gk[k % 3], "seed": rng.getrandbits(48)})
     for k in range(30 if q else 400):
         out.append({"k": "gridbig", "grid": ["polar", "rotated"][k % 2], "seed": rng.getrandbits(48)})
-    for k in range(2 if q else 40):
-        out.append({"k": "e2e", "grid": ["polar", "rotated", "affine"][k % 3], "seed": rng.getrandbits(48)})
+    # end to end: single file / one / two records per file (>= 3 files), both layouts, with and without lon/lat state variables
+    combos = [(2, "sparse", False), (1, "sparse", True), (2, "dense", False), (0, "sparse", True), (1, "dense", True),
+              (2, "sparse", True), (0, "dense", False), (1, "sparse", False), (2, "dense", True), (0, "sparse", False),
+              (1, "dense", False), (0, "dense", True)]
+    for k in range(4 if q else 48):
+        nr_, lay, ws = combos[k % len(combos)]
+        out.append({"k": "e2e", "grid": ["polar", "rotated", "affine"][k % 3], "numrec": nr_, "layout": lay, "with_state": ws,
+                    "seed": rng.getrandbits(48)})
     return out
 
 
@@ -608,66 +615,118 @@ def eval_gridbig(desc, ctx):
 # ------------------------------------------------------------------------------------------------
 # (iv) end to end through ladim.main.main
 # ------------------------------------------------------------------------------------------------
+def read_records(path, layout):
+    """records of one output file as lists of (pid, X, Y, lon, lat); lon/lat None where the file has no value"""
+    from netCDF4 import Dataset
+
+    def val(a, k):
+        v = a[k]
+        return None if (np.ma.is_masked(v) or not math.isfinite(float(v))) else float(v)
+
+    recs = []
+    with Dataset(path) as nc:
+        nc.set_auto_mask(True)
+        t = np.asarray(nc.variables["time"][:], dtype=float)
+        names = ["pid", "X", "Y", "lon", "lat"]
+        if layout == "sparse":
+            pc = np.asarray(nc.variables["particle_count"][:], dtype=int)
+            V = {n: nc.variables[n][:] for n in names}
+            start = 0
+            for k in range(len(t)):
+                rows = []
+                for m in range(start, start + int(pc[k])):
+                    rows.append(tuple(val(V[n], m) if m < len(V[n]) else None for n in names))
+                start += int(pc[k])
+                recs.append((float(t[k]), rows))
+        else:  # dense: the column index is the pid, no pid variable
+            V = {n: nc.variables[n][:, :] for n in names[1:]}
+            for k in range(len(t)):
+                rows = []
+                for pid in range(V["X"].shape[1]):
+                    x = val(V["X"][k], pid)
+                    if x is None:
+                        if val(V["lon"][k], pid) is not None or val(V["lat"][k], pid) is not None:
+                            rows.append((pid, None, None, val(V["lon"][k], pid), val(V["lat"][k], pid)))
+                        continue
+                    rows.append((pid, x, val(V["Y"][k], pid), val(V["lon"][k], pid), val(V["lat"][k], pid)))
+                recs.append((float(t[k]), rows))
+    return recs
+
+
 def eval_e2e(desc, ctx):
     import run_ladim
 
     rng = random.Random(desc["seed"])
     gt = desc["grid"]
+    numrec, layout, with_state = desc.get("numrec", 0), desc.get("layout", "sparse"), desc.get("with_state", False)
     jmax0, imax0 = rng.randint(10, 16), rng.randint(10, 16)
     lon, lat, dx = GRIDS[gt](jmax0, imax0, rng)
     i0, i1, j0, j1 = legal_subgrid(rng, imax0, jmax0, minw=6)
     d = ctx.subdir(f"c16_e2e_{desc['seed']}")
-    dt = 600
+    dt, nsteps = 600, 6
     meters = 1000.0 * (dx if dx else 1.0)
     rf.write_roms(d / "forcing.nc", imax=imax0, jmax=jmax0, N=2, times=[0, 3600, 7200], lon=lon, lat=lat, dx=meters,
                   u=rng.uniform(-0.3, 0.3) * meters / 3600.0, v=rng.uniform(-0.3, 0.3) * meters / 3600.0)
-    rows, want = [], []
-    for k in range(rng.randint(2, 5)):
+    rows = []
+    late = [dt, 2 * dt, 3 * dt, 4 * dt]
+    for k in range(rng.randint(3, 6)):
         X, Y = rng.uniform(i0 + 1.5, i1 - 2.5), rng.uniform(j0 + 1.5, j1 - 2.5)
-        rlon, rlat = interp(lon, X, Y), interp(lat, X, Y)
-        t = rng.choice([0, 0, dt, 2 * dt])
-        rows.append([t, rlon, rlat, rng.uniform(1, 20)])
+        t = 0 if k < 2 else rng.choice(late)  # several particles from the start, some released later
+        rows.append([t, interp(lon, X, Y), interp(lat, X, Y), rng.uniform(1, 20)])
     rows.sort(key=lambda r: r[0])
-    rows[0][0] = 0
     rf.write_release(d / "release.rls", rows)
-    conf = rf.base_config(start=0, stop=6 * dt, dt=dt, forcing_file=d / "forcing.nc", release_file=d / "release.rls",
+    conf = rf.base_config(start=0, stop=nsteps * dt, dt=dt, forcing_file=d / "forcing.nc", release_file=d / "release.rls",
                           out_file=d / "out.nc", names=("release_time", "lon", "lat", "Z"),
-                          instance_variables=("pid", "X", "Y", "Z", "lon", "lat"), subgrid=[i0, i1, j0, j1])
+                          instance_variables=("pid", "X", "Y", "Z", "lon", "lat"), subgrid=[i0, i1, j0, j1],
+                          numrec=numrec, layout=layout)
     # lon/lat output is computed from the position; configure_v1 additionally gives the state (unused) lon, lat
     # instance variables for a lon/lat release: both set-ups must work
-    with_state = rng.random() < 0.5
     if with_state:
         conf["state"] = {"instance_variables": {"lon": "float", "lat": "float"}, "default_values": {"lon": 0.0, "lat": 0.0}}
+    what = f"lon/lat release ({len(rows)} rows in subgrid {(i0, i1, j0, j1)}), lon/lat output, layout={layout}, numrec={numrec}, state carries lon/lat: {with_state}"
     try:
         run_ladim.run_main(conf, d)
-        out = run_ladim.read_sparse(d / "out.nc")
+        files = [d / "out.nc"] if numrec == 0 else sorted(d.glob("out_*.nc"))
+        per_file = [(f.name, read_records(f, layout)) for f in files]
     except (Exception, SystemExit) as e:  # noqa: BLE001
-        return {"ints": None, "oracle": f"run with a lon/lat release ({len(rows)} rows inside subgrid {(i0, i1, j0, j1)}) and lon/lat output "
-                                        f"(state carries lon/lat: {with_state}) failed: {type(e).__name__}: {e}",
-                "nontrivial": None, "kind": f"e2e-{gt}", "observed": {"grid": gt, "subgrid": [i0, i1, j0, j1], "rows": rows}}
+        return {"ints": None, "oracle": f"run with {what} failed: {type(e).__name__}: {e}",
+                "nontrivial": None, "kind": f"e2e-{layout}-numrec{numrec}", "observed": {"grid": gt, "rows": rows}}
     problems = []
-    seen = {}
-    nrec = 0
-    for rec in out["records"]:
-        v = rec["vars"]
-        for k in range(rec["count"]):
-            pid, X, Y, lo, la = int(v["pid"][k]), v["X"][k], v["Y"][k], v["lon"][k], v["lat"][k]
-            nrec += 1
-            wlo, wla = interp(lon, X, Y), interp(lat, X, Y)
-            if not (close(lo, wlo) and close(la, wla)):
-                problems.append(f"record at t={rec['time']} pid={pid}: lon/lat written ({lo},{la}), interpolation of lon_rho/lat_rho at its X,Y ({X},{Y}) = ({wlo},{wla})")
-            if pid not in seen:
-                seen[pid] = True
-                rlon, rlat = rows[pid][1], rows[pid][2]
-                if rec["time"] != float(rows[pid][0]):
-                    problems.append(f"pid {pid} first written at {rec['time']}, released at {rows[pid][0]}")
-                r2 = (wlo - rlon) ** 2 + (wla - rlat) ** 2
-                if not r2 < TOL * (1 + 1e-6):
-                    problems.append(f"pid {pid} released at lon/lat ({rlon},{rlat}) starts at ({X},{Y}) whose lon/lat are ({wlo},{wla}): squared miss {r2} >= tol")
+    want_files = 1 if numrec == 0 else -(-nsteps // numrec)
+    if len(files) != want_files:
+        problems.append(f"{what}: {len(files)} output files, expected {want_files}")
+    seen, ninst = {}, 0
+    for fname, recs in per_file:
+        for t, prow in recs:
+            for pid, X, Y, lo, la in prow:
+                ninst += 1
+                if X is None or Y is None or pid is None:
+                    problems.append(f"{fname} t={t}: lon/lat ({lo},{la}) written where the record has no particle position (pid {pid})")
+                    continue
+                pid = int(pid)
+                wlo, wla = interp(lon, X, Y), interp(lat, X, Y)
+                if lo is None or la is None or not (close(lo, wlo) and close(la, wla)):
+                    problems.append(f"{fname} t={t} pid={pid}: lon/lat written ({lo},{la}); interpolation of lon_rho/lat_rho at the "
+                                    f"X,Y of the same record ({X},{Y}) = ({wlo},{wla})")
+                if pid not in seen:
+                    seen[pid] = True
+                    if pid >= len(rows):
+                        problems.append(f"{fname}: pid {pid} but only {len(rows)} release rows")
+                        continue
+                    rlon, rlat = rows[pid][1], rows[pid][2]
+                    if t != float(rows[pid][0]):
+                        problems.append(f"pid {pid} first written at {t}, released at {rows[pid][0]}")
+                    r2 = (wlo - rlon) ** 2 + (wla - rlat) ** 2
+                    if not r2 < TOL * (1 + 1e-6):
+                        problems.append(f"pid {pid} released at lon/lat ({rlon},{rlat}) starts at ({X},{Y}) whose lon/lat are ({wlo},{wla}): squared miss {r2} >= tol")
     if len(seen) != len(rows):
         problems.append(f"{len(rows)} release rows, {len(seen)} particles in the output")
-    return {"ints": None, "oracle": "; ".join(problems[:3]) or None, "nontrivial": ("e2e", gt, len(rows), i0 != j0, with_state),
-            "kind": f"e2e-{gt}", "observed": {"grid": gt, "subgrid": [i0, i1, j0, j1], "rows": len(rows), "instances": nrec}}
+    if problems:
+        problems[0] = what + ": " + problems[0]
+    return {"ints": None, "oracle": "; ".join(problems[:3]) or None,
+            "nontrivial": ("e2e", gt, layout, numrec, with_state, len(rows), i0 != j0),
+            "kind": f"e2e-{layout}-numrec{numrec}",
+            "observed": {"grid": gt, "subgrid": [i0, i1, j0, j1], "rows": len(rows), "files": len(files), "instances": ninst}}
 
 
 def eval_polar_explicit(desc, ctx):
